@@ -30,6 +30,8 @@ CONFIGS = {
     'sse41': ('', 'release', '-C target-feature=+sse4.1', '', []),
     'avx': ('', 'release', '-C target-feature=+avx', '', []),
     'avx2': ('', 'release', '-C target-feature=+avx2', '', []),
+    'cgu1': ('', 'release', '-C codegen-units=1', '', []),      # whole-crate optimisation (what codegen-units = 1 / LTO release profiles get)
+    'curveonly': ('', 'release', '', 'curveonly', ['--no-default-features']),   # the library compiled with the ed25519 + x25519 features only (C19 victim)
     'f32': ('', 'release', '', 'f32', []),
     'f32cap': ('', 'release', '--cap-lints=warn', 'f32', []),
     'f32chk': ('', 'release', '-C overflow-checks=on -C debug-assertions=on', 'f32', []),
@@ -410,6 +412,25 @@ def standard_check(mod, tier, seed, cfg='rel', floors=None, replay=None):
     extra = None
     if hasattr(mod, 'extra_coverage'):
         extra = mod.extra_coverage(lines, results)
+    # the same case file through other builds of the library (cargo features that are not supposed to change this property's results):
+    # the tokens must be identical to the default build's, which the phase above has checked against the specification
+    for xcfg in getattr(mod, 'EXTRA_CFGS', ()):
+        xbin, xlog = build(xcfg, allow_fail=True)
+        if xbin is None:
+            rep.notes.append('configuration %s does not build; not compared (C17 decides the compile clause)' % xcfg)
+            continue
+        xres, xcr = run_driver(xbin, casefile, len(lines), xcfg)
+        if xcr:
+            raise Inconclusive('driver (%s build) crashed: %r' % (xcfg, xcr[:2]))
+        nd = 0
+        for i, l in enumerate(lines):
+            rep.evaluations += 1
+            if results.get(i) != xres.get(i):
+                nd += 1
+                rep.violations.append((xcfg, i, '%s:%s-build:%s:differs-from-default-build' % (mod.ID, xcfg, l.split()[0]),
+                                       'default build: %s | %s build: %s' % (' '.join(results.get(i) or ['<none>'])[:80], xcfg, ' '.join(xres.get(i) or ['<none>'])[:80]), l, xres.get(i)))
+        extra = dict(extra or {})
+        extra.setdefault('other_builds_compared', []).append({'configuration': xcfg, 'records': len(lines), 'differences': nd})
     if hasattr(mod, 'BULK'):
         from . import bulk
         bcov = bulk.for_property(rep, mod, tier, seed, wd, replay_lines=bulk_replay)
